@@ -169,6 +169,64 @@ static conflict CONF[64];
 static int NCONF;
 static uint64_t NCONF_TOTAL;
 
+/* writable static storage defined by the library's own objects (listed by the driver from the symbol tables; empty
+ * for the unchanged tree). Stores to it may be invisible to the compiler's instrumentation (vector stores wider than 16
+ * bytes are not instrumented), so EVERY access to it counts as a write: two threads touching it conflict. */
+#include <link.h>
+typedef struct {
+    uintptr_t lo, hi;
+    char name[80];
+} libstatic;
+static libstatic LIBST[64];
+static int NLIBST;
+static int phdr_cb(struct dl_phdr_info *info, size_t size, void *data) {
+    (void)size;
+    if (*(uintptr_t *)data == (uintptr_t)-1) {
+        *(uintptr_t *)data = (uintptr_t)info->dlpi_addr; /* first entry: the main program */
+    }
+    return 0;
+}
+static void load_lib_statics(void) {
+    char path[600];
+    ssize_t n = readlink("/proc/self/exe", path, sizeof path - 32);
+    if (n <= 0) {
+        return;
+    }
+    path[n] = 0;
+    char *slash = strrchr(path, '/');
+    if (!slash) {
+        return;
+    }
+    strcpy(slash + 1, "lib_statics.txt");
+    FILE *f = fopen(path, "r");
+    if (!f) {
+        return;
+    }
+    uintptr_t base = (uintptr_t)-1;
+    dl_iterate_phdr(phdr_cb, &base);
+    if (base == (uintptr_t)-1) {
+        base = 0;
+    }
+    unsigned long off, sz;
+    char nm[80];
+    while (NLIBST < 64 && fscanf(f, "%lx %lu %79s", &off, &sz, nm) == 3) {
+        LIBST[NLIBST].lo = base + off;
+        LIBST[NLIBST].hi = base + off + (sz ? sz : 1);
+        snprintf(LIBST[NLIBST].name, sizeof LIBST[NLIBST].name, "%s", nm);
+        NLIBST++;
+    }
+    fclose(f);
+    vh_infostr("library_static_objects", "%d", NLIBST);
+}
+static int in_lib_static(uintptr_t a, uint32_t size) {
+    for (int i = 0; i < NLIBST; i++) {
+        if (a < LIBST[i].hi && a + size > LIBST[i].lo) {
+            return 1;
+        }
+    }
+    return 0;
+}
+
 static void compute_conflicts(const vs_exec *x) {
     NCE = 0;
     NCONF = 0;
@@ -187,7 +245,7 @@ static void compute_conflicts(const vs_exec *x) {
             c->addr = e->addr;
             c->size = e->size ? e->size : 1;
             c->tid = (uint8_t)t;
-            c->w = e->is_write;
+            c->w = e->is_write || (NLIBST && in_lib_static(e->addr, e->size ? e->size : 1));
             c->atomic = e->is_atomic;
             c->klass = e->klass;
             c->locks = e->locks;
@@ -489,6 +547,7 @@ int main(int argc, char **argv) {
     }
     vh_init(argc, argv);
     vs_init();
+    load_lib_statics();
     c17_init_inputs();
     int max_bound = vh_thorough ? 2 : 1;
     static int ops[VS_MAXT][MAXOPS_PER_THREAD];
